@@ -287,10 +287,12 @@ func (fr *Frame) argBindings(cc *ssa.CallCommon, args []Term) map[string]TV {
 	out := fr.argBindings0(cc, args)
 	if f, ok := cc.Value.(*ssa.Function); ok {
 		// parameters that were only renamed since the baseline stay reachable under the old name
-		for o, n := range fr.c.P.renamesFor(f) {
-			if tv, has := out[n]; has {
-				if _, taken := out[o]; !taken {
-					out[o] = tv
+		for o, ns := range fr.c.P.renamesFor(f) {
+			for _, n := range ns {
+				if tv, has := out[n]; has && n != o {
+					if _, taken := out[o]; !taken {
+						out[o] = tv
+					}
 				}
 			}
 		}
@@ -730,10 +732,12 @@ func (fr *Frame) applyContract(fcx *FuncContract, f *ssa.Function, sig *types.Si
 			e.bind["self"] = TV{T: args[0], Ty: f.Params[0].Type()}
 		}
 		// parameters that were only renamed since the baseline stay reachable under the old name
-		for o, n := range c.P.renamesFor(f) {
-			if tv, has := e.bind[n]; has {
-				if _, taken := e.bind[o]; !taken {
-					bindParam(o, tv)
+		for o, ns := range c.P.renamesFor(f) {
+			for _, n := range ns {
+				if tv, has := e.bind[n]; has && n != o {
+					if _, taken := e.bind[o]; !taken {
+						bindParam(o, tv)
+					}
 				}
 			}
 		}
